@@ -134,7 +134,11 @@ def constructor_cases(ctx):
     for rate in (8, 10, 100, 16000, 48000, 44100):
         for block_dur in (1 / rate, 2 / rate, 0.5 / rate, 0.99 / rate, 1.5 / rate, 0.1, 0.29, 0.57, 0.009, 0.35, 1001 / 16000, 0.9999999999 / rate,
                           0, 0.0, -1 / rate, -2.5 / rate, -0.1, -0.5 / rate):
-            for hop_dur in (None, block_dur, block_dur / 2, block_dur * 2, block_dur + 1 / rate, block_dur + 0.5 / rate, block_dur * 1.01):
+            import math
+
+            ulp_up = math.nextafter(block_dur, math.inf) if block_dur > 0 else None
+            for hop_dur in (None, block_dur, block_dur / 2, block_dur * 2, block_dur + 1 / rate, block_dur + 0.5 / rate, block_dur * 1.01) + (
+                    (ulp_up, block_dur * (1 + 1e-12), block_dur + block_dur * 3e-16) if ulp_up else ()):
                 ctx.evaluations += 1
                 ctx.count("constructor_cases")
                 exp_err = None
@@ -156,6 +160,40 @@ def constructor_cases(ctx):
                     ctx.violation("constructor-rejects-valid-durations", {"case": case, "exception": got})
                 elif got is not None:
                     ctx.count("constructor_errors_observed")
+
+
+def float_corner_cases(ctx):
+    """hop and block durations one or a few ulps apart: `hop > block` is an error however small the excess, and a hop one ulp
+    BELOW the block is a different number of samples whenever the floor says so."""
+    import math
+
+    for block_dur, rate in ((0.3, 10), (0.5, 10), (0.1 + 0.2, 100), (0.7, 10), (1.1, 10), (0.35, 100), (0.6, 100), (2.5, 8)):
+        for hop_dur, label in ((0.1 + 0.2 if block_dur == 0.3 else math.nextafter(block_dur, math.inf), "one-ulp-above"),
+                               (math.nextafter(block_dur, 0), "one-ulp-below")):
+            ctx.evaluations += 1
+            ctx.count("float_corner_constructor_cases")
+            case = {"ctor": [rate, block_dur, hop_dur], "corner": label}
+            try:
+                rd = AudioReader(bytes(4 * int(block_dur * rate) + 3), block_dur=block_dur, hop_dur=hop_dur, sr=rate, sw=1, ch=1)
+            except Exception as exc:
+                if hop_dur <= block_dur:
+                    ctx.violation("constructor-rejects-valid-durations", {"case": case, "exception": type(exc).__name__})
+                continue
+            if hop_dur > block_dur:
+                ctx.violation("constructor-accepts:hop_dur->-block_dur", {"case": case})
+                continue
+            want_block, want_hop = int(block_dur * rate), int(hop_dur * rate)
+            if want_hop == 0:
+                continue
+            if (rd.block_size, rd.hop_size) != (want_block, want_hop):
+                ctx.violation("block-or-hop-size-not-floor(dur*rate)", {"case": case, "block_size": rd.block_size, "hop_size": rd.hop_size, "expected": [want_block, want_hop]})
+                continue
+            rd.open()
+            first, second = rd.read(), rd.read()
+            rd.close()
+            data = bytes(4 * int(block_dur * rate) + 3)
+            if first is None or len(first) != want_block or (second is not None and len(data) >= want_hop + want_block and len(second) != want_block):
+                ctx.violation("blocks-differ-from-model", {"case": case, "first": None if first is None else len(first), "second": None if second is None else len(second)})
 
 
 def exhaustive_core(ctx, conf, tmpdir):
@@ -187,6 +225,7 @@ def run_shard(ctx):
     try:
         if ctx.shard == 0:
             constructor_cases(ctx)
+            float_corner_cases(ctx)
         exhaustive_core(ctx, conf, tmpdir)
         rng = ctx.rng("random")
         for i in range(conf["random"]):
@@ -201,6 +240,7 @@ def run_shard(ctx):
 def replay(ctx, case):
     if "ctor" in case:
         constructor_cases(ctx)
+        float_corner_cases(ctx)
         return
     tmpdir = tempfile.mkdtemp(prefix="vf-c10-")
     try:
